@@ -216,10 +216,16 @@ def run(R):
             for c in closures_passed(F, sf, t_):
                 prep(c)
                 nret += 1
-                D = Taint(c).closure(call_results(["ant_protocol::NetworkAddress::distance"])(c))
-                B = Taint(c, through="all").closure(_captured_seeds(sf, c, new_parent)) - D
+                _db = {}
 
-                def classify(b_, cs, D=D, B=B):
+                def classify(b_, cs, _db=_db):
+                    # per body (the retain closure itself, or a predicate closure of set_farthest_on_full it calls): D = distances
+                    # computed there, B = values derived from the captured new bound
+                    if b_.path not in _db:
+                        prep(b_)
+                        D_ = Taint(b_).closure(call_results(["ant_protocol::NetworkAddress::distance"])(b_))
+                        _db[b_.path] = (D_, Taint(b_, through="all").closure(_captured_seeds(sf, b_, new_parent)) - D_)
+                    D, B = _db[b_.path]
                     la, lb = op_local(cs["a"]), op_local(cs["b"])
                     if la in D and lb in B:
                         rel = cs["op"]
